@@ -182,6 +182,17 @@ def gen_cases(which: str, tier: str, seed: int) -> List[Case]:
     return pmap(_one, [(which, seed, i) for i in range(n)])
 
 
+def sym_suite(cases: List[Case]) -> Suite:
+    """The same cases against the SPECIFICATION sym_compile (Spec/CompileSym.v): validates the spec itself
+    against the implementation on every run."""
+    return Suite(
+        name="compile-sym",
+        imports=["From RG Require Import Model.Recipe Model.Compiler Model.CompilerInst Model.CompilerSymInst."],
+        in_ty="list (list astmt)", out_ty="observed", check="check_sym", show="sym_compile_inst", shard=60,
+        cases=list(cases),
+    )
+
+
 def compile_suite(which: str, tier: str, seed: int) -> Suite:
     su = Suite(
         name="compile",
